@@ -95,7 +95,10 @@ func Run(o Opts) (*Result, error) {
 	if o.Timeout <= 0 {
 		o.Timeout = 10 * time.Minute
 	}
-	args := []string{"-XX:+UseParallelGC", "-Xss64m"}
+	// TLC unpacks its standard modules into java.io.tmpdir: keep that inside the scratch directory
+	jtmp := filepath.Join(dir, "jtmp")
+	_ = os.MkdirAll(jtmp, 0o755)
+	args := []string{"-XX:+UseParallelGC", "-Xss64m", "-Djava.io.tmpdir=" + jtmp}
 	if o.JavaOpts != "" {
 		args = append(args, strings.Fields(o.JavaOpts)...)
 	}
